@@ -6,7 +6,7 @@ import sys
 
 from .facts import Facts
 from .run import Run, VERIF
-from .inline import load_vocabulary, inline_new_helpers, load_reference
+from .inline import load_vocabulary, inline_new_helpers, load_reference, consumed_closures
 from .normalize import lower_int_cmp, desugar_combinators
 
 LEVELS = {"C13": "proof"}
@@ -61,6 +61,7 @@ def main():
     vocab = load_vocabulary(VERIF)
     ctx.inlined = inline_new_helpers(ctx.facts, vocab)
     ctx.facts.spliced_helpers = {c_ for _p, c_ in ctx.inlined}
+    ctx.facts.consumed_closures = consumed_closures(ctx.facts, ctx.inlined)
     if ctx.facts_release is not None:
         inline_new_helpers(ctx.facts_release, vocab)
     run = Run(prop, tier, LEVELS.get(prop, "other"))
